@@ -276,7 +276,8 @@ def register(PROPS, COMPONENTS):
                    "operations destroy / unlock / move-construct / move-assign: the truth value of a returned handle equals 'the lock "
                    "was obtained'; try/timed lock events are enabled in every global state (never block); a non-null handle owns the "
                    "lock until an operation on it; releases happen only inside an operation on the owning handle and such an operation "
-                   "cannot end without the release; acquisitions = releases (+1 while holding) per thread; after unlock() the handle is "
+                   "cannot end without the release; acquisitions = releases (+1 while holding) per thread, stated both on the ghost counters "
+                   "and on the lock / unlock EVENTS of the trace (C08_counts_are_events, C08_released_once_trace, _idle_trace); after unlock() the handle is "
                    "null; a moved-from handle is destroyed silently; with locking disabled every acquisition yields a non-null handle "
                    "at once and performs no lock operation." + LF_TIE,
         level_note="Trusted base as C01. 'never blocking beyond the given time' is modelled as: a timed attempt either obtains the "
